@@ -92,6 +92,17 @@ static std::string parse_to_doc(const std::vector<long> &text, bool &undef) {
     vf::Exact<Ch> buf(text.begin(), text.end());
     Value<Ch>     v = JSON::Parse((const Ch *)buf.data(), (SizeT)buf.n);
     undef           = v.IsUndefined();
+    {   // the same text through a caller-supplied scratch stream that an earlier, FAILED parse has used: the result must not differ
+        static const char    bad[] = "[\"ab\\u00e9\\q\"]";
+        std::basic_string<Ch> badw(bad, bad + sizeof(bad) - 1);
+        StringStream<Ch>      scratch;
+        Value<Ch>             rejected = JSON::Parse(scratch, badw.data(), (SizeT)badw.size());
+        Value<Ch>             again    = JSON::Parse(scratch, (const Ch *)buf.data(), (SizeT)buf.n);
+        std::string d1, d2;
+        jdoc(v, d1);
+        jdoc(again, d2);
+        if (!rejected.IsUndefined() || d1 != d2) undef = !undef;      // (reported through the verdict: the oracle sees the wrong acceptance / rejection)
+    }
     std::string d;
     jdoc(v, d);
     return d;
